@@ -232,6 +232,33 @@ theorem toPath_of_perm {κ ν} [BEq κ] [LawfulBEq κ] (val : κ → ν) (path :
     subst this
     simp [← hk']
 
+theorem findIdx?_bind_getElem? {α} (p : α → Bool) : ∀ (l : List α),
+    (l.findIdx? p).bind (fun i => l[i]?) = l.find? p
+  | [] => rfl
+  | a :: l => by
+    rw [List.findIdx?_cons, List.find?_cons]
+    cases hp : p a with
+    | true => simp
+    | false =>
+      simp only [Bool.false_eq_true, if_false]
+      have ih := findIdx?_bind_getElem? p l
+      cases hi : l.findIdx? p with
+      | none => rw [hi] at ih; simpa using ih
+      | some i => rw [hi] at ih; simpa using ih
+
+/-- the mapping applied to the arrivals is the first-match lookup: `self_to_path` computes `toPath` -/
+theorem applyMapping_mappingOf {κ ν} [BEq κ] (arr : List (κ × ν)) (path : List κ) :
+    applyMapping arr (mappingOf arr path) = toPath arr path := by
+  unfold applyMapping mappingOf toPath
+  rw [List.map_map]
+  apply List.map_congr_left
+  intro k _
+  simp only [Function.comp]
+  have h := findIdx?_bind_getElem? (fun p : κ × ν => p.1 == k) arr
+  cases hi : arr.findIdx? (fun p => p.1 == k) with
+  | none => rw [hi] at h; simp only [Option.bind_none] at h ⊢; rw [← h]; rfl
+  | some i => rw [hi] at h; simp only [Option.bind_some] at h ⊢; rw [h]
+
 theorem onGrid_perm {κ ν} [BEq κ] {arr arr' : List (κ × ν)} (h : arr.Perm arr') (g : κ) :
     (onGrid arr g).Perm (onGrid arr' g) := by
   unfold onGrid
